@@ -17,6 +17,9 @@ type SpecClause struct {
 	// never assumed at its call sites.
 	Props    []string
 	GoalOnly bool
+	// Strict (`requires @strict expr`): the precondition is proved at every call site even in
+	// callers whose own contract is effects-only (skip-safety); other arguments rely on it.
+	Strict bool
 }
 
 type LoopContract struct {
@@ -302,6 +305,10 @@ func (cs *ContractSet) parseFile(fset *token.FileSet, pkgPath string, f *ast.Fil
 				cur.Mode = ModeInt
 			}
 		case "requires":
+			if strings.HasPrefix(cl.Text, "@strict ") {
+				cl.Strict = true
+				cl.Text = strings.TrimSpace(strings.TrimPrefix(cl.Text, "@strict "))
+			}
 			cur.Requires = append(cur.Requires, cl)
 		case "ensures", "check-ensures":
 			if strings.HasPrefix(cl.Text, "@") {
@@ -340,6 +347,12 @@ func (cs *ContractSet) parseFile(fset *token.FileSet, pkgPath string, f *ast.Fil
 			if curLoop == nil {
 				cs.Errors = append(cs.Errors, ln.pos+": invariant outside loop")
 				continue
+			}
+			if strings.HasPrefix(cl.Text, "@") {
+				if f := strings.SplitN(cl.Text, " ", 2); len(f) == 2 {
+					cl.Props = strings.Split(strings.TrimPrefix(f[0], "@"), ",")
+					cl.Text = strings.TrimSpace(f[1])
+				}
 			}
 			curLoop.Invariants = append(curLoop.Invariants, cl)
 		case "decreases":
